@@ -102,7 +102,7 @@ fn decode(attr: &Arc<Vec<packet::Attribute>>) -> (u32, u32, u32) {
 type Route = (Arc<Vec<packet::Attribute>>, Option<bgp::Nexthop>);
 type Mirror = BTreeMap<(u32, u32), Route>;
 
-fn apply_msg(m: &bgp::Message, mirror: &mut Mirror, un: &mut Vec<Vec<u32>>, re: &mut Vec<Vec<u32>>, eor: &mut u32) {
+fn apply_msg(m: &bgp::Message, mirror: &mut Mirror, un: &mut Vec<Vec<u32>>, re: &mut Vec<Vec<u32>>, eor: &mut Vec<u32>) {
     match m {
         bgp::Message::Update(bgp::Update::Unreach { entries, .. }) => {
             for e in entries {
@@ -124,7 +124,7 @@ fn apply_msg(m: &bgp::Message, mirror: &mut Mirror, un: &mut Vec<Vec<u32>>, re: 
                 re.push(vec![k.0, k.1, s, t, l]);
             }
         }
-        bgp::Message::Update(bgp::Update::EndOfRib(_)) => *eor += 1,
+        bgp::Message::Update(bgp::Update::EndOfRib(_)) => eor.push(re.len() as u32),
         bgp::Message::Keepalive => {}
         _ => panic!("verif: unexpected message on the wire"),
     }
@@ -261,11 +261,11 @@ impl World {
     }
 
     // flush_tx, then a KEEPALIVE as an end marker; read and decode until the marker
-    async fn flush(&mut self, mirror: &mut Mirror) -> (Vec<Vec<u32>>, Vec<Vec<u32>>, u32) {
+    async fn flush(&mut self, mirror: &mut Mirror) -> (Vec<Vec<u32>>, Vec<Vec<u32>>, Vec<u32>) {
         assert!(self.conn.flush_tx(&mut self.stream).await, "verif: flush_tx failed");
         self.conn.ctrl_msgs.push(bgp::Message::Keepalive);
         assert!(self.conn.flush_tx(&mut self.stream).await, "verif: flush_tx failed");
-        let (mut un, mut re, mut eor) = (Vec::new(), Vec::new(), 0u32);
+        let (mut un, mut re, mut eor) = (Vec::new(), Vec::new(), Vec::<u32>::new());
         let mut done = false;
         while !done {
             loop {
@@ -460,7 +460,7 @@ async fn run(case: &Val) -> Val {
                     Val::n(3),
                     rows(&un),
                     rows(&re),
-                    Val::n(eor),
+                    Val::L(eor.iter().map(|x| Val::n(*x)).collect()),
                     Val::L(vec![
                         mirror_rows(&w.mirror),
                         Val::L(w.queued_nets()),
